@@ -127,9 +127,9 @@ def _child(jobs, start, conn):
         if "merge_seq" in j:
             run_job({"merge_seq": [[1, 2]], "m": 2, "size0": 64})
         else:
-            w = dict(j, H=2, W=2, raw=[[0, 1], [1, 1]], idx=-1)
+            w = dict(j, H=2, W=2, raw=[[1, 1], [1, 1]], idx=-1)
             if j.get("mask") is not None:
-                w["mask"] = [[1, 1], [0, 1]]
+                w["mask"] = [[1, 1], [1, 1]]
             run_job(w)
     conn.send((-1, len(seen)))
     for k in range(start, len(jobs)):
@@ -160,7 +160,7 @@ def main():
     k = 0
     timeouts = 0
     while k < len(jobs):
-        if timeouts >= 4:
+        if timeouts >= 2:
             # give up on the rest: they are reported as not run (the driver ignores them)
             for j in jobs[k:]:
                 out.write(json.dumps({"skipped": 1, "tag": j.get("tag", "")}) + "\n")
